@@ -528,6 +528,25 @@ impl Relayer {
                 }
             }
 
+            // `into_view` recomputes the proposals hash and the extra hash from the body as
+            // well; the block is only the announced one if they equal what the (verified)
+            // compact block header commits to.
+            let compact_block_header = compact_block.header().into_view();
+            if compact_block_header.proposals_hash() != block.proposals_hash()
+                || compact_block_header.extra_hash() != block.extra_hash()
+            {
+                return ReconstructionResult::Error(
+                    StatusCode::CompactBlockHasInvalidHeader.with_context(format!(
+                        "proposals_hash({}) / extra_hash({}) of the compact block header \
+                         are unmatched with the reconstructed block ({}, {})",
+                        compact_block_header.proposals_hash(),
+                        compact_block_header.extra_hash(),
+                        block.proposals_hash(),
+                        block.extra_hash(),
+                    )),
+                );
+            }
+
             ReconstructionResult::Block(block)
         } else {
             let missing_indexes: Vec<usize> = block_transactions
